@@ -51,6 +51,11 @@ def drift_for(files):
 if __name__ == "__main__":
     if "--update" in sys.argv:
         json.dump(current(), open(BASE, "w"), indent=1, sort_keys=True)
+        # the snapshot the drift-directed search (harness/driftsearch.py) compares the current tree with
+        import shutil
+        snap = os.path.join(os.path.dirname(HERE), "baseline_src", "multidecoder")
+        shutil.rmtree(snap, ignore_errors=True)
+        shutil.copytree(SRC, snap, ignore=shutil.ignore_patterns("__pycache__", "*.pyc"))
         print("baseline written:", len(current()), "fingerprints")
     else:
         print(drift())
